@@ -64,13 +64,17 @@ Inductive obs :=
 | OArray (status : N) (l : list oitem).
 
 (* oracle table for the typed decoding of params[0] (pkg/ethsigner, pkg/ethtypes; outside C16's anchors) *)
-Inductive tfrom := FAbsent | FBad | FAddr (which : N).   (* which: 0 not held, 1 held, 2 held and its nonce lookup fails *)
+Inductive tfrom := FAbsent | FBad | FAddr (which : N).
+(* which: 0 not held, 1 held, 2 held and its nonce lookup fails, 3 held and the scripted backend refuses the
+   eth_sendRawTransaction of this transaction (marker in its `to` address; round 3) *)
 Inductive tinfo := TDecodeErr | TView (f : tfrom) (nonce : bool).
 
 Inductive case := C16Case (body : bdsl) (v : dverdict) (table : list (djv * tinfo)) (o : obs).
 
 (* ---- the instance of the Section variables that mirrors the harness's scripted world ---- *)
-Definition FF : Type := N.    (* 0 unparsable, 1 address not held, 2 held, 3 held + nonce lookup fails *)
+Definition FF : Type := N.    (* 0 unparsable, 1 address not held, 2 held, 3 held + nonce lookup fails, 4 held + sendRaw refused *)
+Definition raw_ok : bytes := ascii_bytes "0xf86b".
+Definition raw_refused : bytes := ascii_bytes "0xdead".
 
 Definition lookup_txn (table : list (jv * tinfo)) (p0 : option jv) : option (txn_view FF) :=
   let key := match p0 with None => JNull | Some v => v end in
@@ -84,7 +88,8 @@ Definition inst_call_nonce (w : unit) (f : FF) : option rpc_error * unit :=
   (if (f =? 3)%N then Some (mkErr (-32005) some_text) else None, tt).
 Definition inst_sign (w : unit) (t : txn_view FF) : option bytes * unit :=
   (match tv_from t with
-   | Some f => if ((f =? 2) || (f =? 3))%N then Some (ascii_bytes "0xf86b") else None
+   | Some f => if ((f =? 2) || (f =? 3))%N then Some raw_ok
+               else if (f =? 4)%N then Some raw_refused else None
    | None => None
    end, tt).
 Definition inst_accounts (w : unit) : option (list bytes) * unit := (Some [ascii_bytes "0x01"; ascii_bytes "0x02"], tt).
@@ -93,7 +98,11 @@ Definition inst_accounts (w : unit) : option (list bytes) * unit := (Some [ascii
 Definition script : list (string * Z) :=
   [("t_rpcerr", -32000); ("t_rpcerr_500", -32001); ("t_http500_empty", -32603); ("t_http502_text", -32603);
    ("t_drop", -32603); ("t_rawnull", -32603); ("t_slow_err", -32000)]%Z%string.
+Definition is_refused_raw (q : request) : bool :=
+  bytes_eqb (q_method q) m_eth_sendRawTransaction &&
+  match q_params q with [Some (JStr h)] => bytes_eqb h raw_refused | _ => false end.
 Definition inst_sync (w : unit) (q : request) : (option response * bool) * unit :=
+  if is_refused_raw q then ((Some (mkResp v2_0 (q_id q) None (Some (mkErr (-32000) some_text))), true), tt) else
   match find (fun e => bytes_eqb (ascii_bytes (fst e)) (q_method q)) script with
   | Some (_, code) => ((Some (mkResp v2_0 (q_id q) None (Some (mkErr code some_text))), true), tt)
   | None => ((Some (mkResp v2_0 (q_id q) (Some JNull) None), false), tt)
